@@ -1,6 +1,6 @@
 (** Model of [Store<Data>] / [Store<Image>] (src/datastore.rs), of the store part of
     [Font::save_impl] / [Font::load_requested_data] (src/font.rs) and of [glyph::Image::new]
-    (src/glyph/mod.rs), as the code is after the repairs c2a517e and 2c07570.
+    (src/glyph/mod.rs), as the code is after the repairs c2a517e, 2c07570 and 2bd9911.
     Also the specification predicates of C16.  Definitions only. *)
 Require Export Norad.Model.Base.
 Open Scope N_scope.
@@ -115,7 +115,7 @@ Fixpoint join (ns : list str) : str :=
 
 Inductive serr :=                      (* StoreError, variant only *)
 | DirUnderFile | EmptyPath | NotPlainFileOrDir | PathIsAbsolute | InvalidPathComponent
-| NotPlainFile | Subdir | InvalidImage | Io.
+| NotPlainFile | Subdir | InvalidImage | Io | PathNotUnicode.
 
 Inductive cell := NotLoaded | Loaded (b : bytes) | Error (e : serr).     (* Item *)
 Inductive kind := KData | KImage.
@@ -457,6 +457,30 @@ Definition save (dd di : disk) (data imgs : items) (target : option afs)
   end.
 
 (** * [glyph::Image::new]: the file name of a glyph's image reference *)
+
+(** [OsStr::to_str().is_some()] on Unix: the bytes are well-formed UTF-8 (no overlong forms, no
+    surrogates, nothing above U+10FFFF). State: how many continuation bytes are still due and
+    the range allowed for the next one. *)
+Fixpoint utf8_go (due lo hi : N) (l : bytes) : bool :=
+  match l with
+  | [] => due =? 0
+  | c :: r =>
+      if due =? 0 then
+        if c <? 128 then utf8_go 0 0 0 r
+        else if (194 <=? c) && (c <=? 223) then utf8_go 1 128 191 r
+        else if c =? 224 then utf8_go 2 160 191 r
+        else if (225 <=? c) && (c <=? 236) then utf8_go 2 128 191 r
+        else if c =? 237 then utf8_go 2 128 159 r
+        else if (238 <=? c) && (c <=? 239) then utf8_go 2 128 191 r
+        else if c =? 240 then utf8_go 3 144 191 r
+        else if (241 <=? c) && (c <=? 243) then utf8_go 3 128 191 r
+        else if c =? 244 then utf8_go 3 128 143 r
+        else false
+      else if (lo <=? c) && (c <=? hi) then utf8_go (due - 1) 128 191 r
+      else false
+  end.
+Definition utf8_valid (l : bytes) : bool := utf8_go 0 0 0 l.
+
 Definition glyph_image_new (raw : str) : option serr :=
   if is_nil raw then Some EmptyPath
   else if is_absolute raw then Some PathIsAbsolute
@@ -464,7 +488,9 @@ Definition glyph_image_new (raw : str) : option serr :=
     (* Path::parent(): drop the last component unless it is the root; non-empty iff something
        is left *)
     let p := components raw in
-    if (2 <=? N.of_nat (length p)) then Some Subdir else None.
+    if (2 <=? N.of_nat (length p)) then Some Subdir
+    else if negb (utf8_valid raw) then Some PathNotUnicode     (* since 2bd9911 *)
+    else None.
 
 (** * Specification (C16) *)
 
